@@ -1,7 +1,7 @@
 (* C11 - The command-byte table is total, exact and invertible.
    Statements only; every proof is `exact <lemma>` from Proofs/.  The byte domain 0 <= b < 256 is
    complete because the Rust argument is a u8. *)
-From Ctap Require Import Base Schema Procs Inst ProcTables Finite C11P ObOpTables.
+From Ctap Require Import Base Schema Procs Inst ProcTables Finite C11P ObOpTables FnShapes Shapes ObShapeRequest.
 Local Open Scope string_scope.
 Local Open Scope Z_scope.
 
@@ -122,6 +122,11 @@ Proof. reflexivity. Qed.
 Example c11_ex_feats : In ["get-info-full"; "large-blobs"] all_feats.
 Proof. vm_compute. tauto. Qed.
 
+(* tie to the source for the hand-modelled procedural code: the bodies of these functions, as regenerated from
+   /repo now, have the shape (literals, operators, calls, control flow, constants) the model was written against *)
+Theorem c11_modelled_functions_unchanged_request : shapes_hold fn_shapes shapes_request = true.
+Proof. exact generated_shapes_request. Qed.
+
 Eval vm_compute in "ASSUMPTIONS c11_recognised_exact". Print Assumptions c11_recognised_exact.
 Eval vm_compute in "ASSUMPTIONS c11_vendor_try_from". Print Assumptions c11_vendor_try_from.
 Eval vm_compute in "ASSUMPTIONS c11_roundtrip". Print Assumptions c11_roundtrip.
@@ -137,3 +142,4 @@ Eval vm_compute in "ASSUMPTIONS c11_unsupported_and_unassigned". Print Assumptio
 Eval vm_compute in "ASSUMPTIONS c11_rejected_set". Print Assumptions c11_rejected_set.
 Eval vm_compute in "ASSUMPTIONS c11_generated_conforms". Print Assumptions c11_generated_conforms.
 Eval vm_compute in "ASSUMPTIONS c11_generated_route". Print Assumptions c11_generated_route.
+Eval vm_compute in "ASSUMPTIONS c11_modelled_functions_unchanged_request". Print Assumptions c11_modelled_functions_unchanged_request.
